@@ -1219,6 +1219,31 @@ func (w *pedWorld) check() *core.Violation {
 			}
 		}
 	}
+	// E'. bounded liveness under crash faults only: nobody deviates, some participants (within the
+	// tolerated number) are absent or stop between two phases, every packet of a phase is delivered
+	// before the next phase is announced - then every participant that stays alive completes, for
+	// every delivery order. (Seed C11q: in fast-sync mode an honest newcomer that held all
+	// justification bundles before its own timeout aborted with an error.)
+	crashOnly := !allHonest
+	for _, p := range w.parties {
+		if p.faulty == "byz" {
+			crashOnly = false
+		}
+	}
+	if crashOnly {
+		for _, p := range w.parties {
+			if !p.honest() {
+				continue
+			}
+			if p.inNew() && p.res == nil {
+				return pviol("liveness", "liveness/crash-only-run-incomplete/"+vn, "only crash faults (within the tolerated number), but live party %d (new index %d) has no result: err=%v", p.id, p.nidx, p.err)
+			}
+			if !p.inNew() && p.err != nil {
+				return pviol("liveness", "liveness/crash-only-old-only-error/"+vn, "only crash faults (within the tolerated number), but leaving party %d returned an error: %v", p.id, p.err)
+			}
+		}
+		info.Probe("crash-only-run-complete")
+	}
 	if ref == nil {
 		return nil
 	}
